@@ -214,3 +214,7 @@ func executorCalls(c *Ctx) []execCall {
 	})
 	return out
 }
+
+// ResetCaches drops per-program memoisation (used by tools that analyse many
+// variants in one process).
+func ResetCaches() { refWriteCache = nil }
